@@ -1752,6 +1752,8 @@ class ListProxy(list):
                 'Cannot pop an object from {clsname}.objects if '
                 'objects was not declared as a dictionary.'
             )
+        if len(args) > 1 and args[0] not in self._parameter.names:
+            return args[1]
         with self._trigger():
             object = self._parameter.names.pop(*args)
             super().remove(object)
